@@ -2,6 +2,7 @@ import Lean.Data.Json
 import O2P.Model.Time
 import O2P.Model.Seq
 import O2P.Model.Store
+import O2P.Model.Jq
 /-!
 Model driver: one JSON request per line on stdin, one JSON reply per line on stdout.
 Numbers that may exceed 2^53 travel as decimal strings.
@@ -249,6 +250,72 @@ def script (j : Json) : Except String Json := do
 
 end StoreOps
 
+namespace JqOps
+abbrev JV := O2P.Jq.Json
+
+/-- documents travel in a tagged form that keeps key order and big integers:
+["z"] null, ["b", bool], ["n", "123"], ["s", str], ["a", [..]], ["o", [[k, v], ..]] -/
+partial def decode (j : Json) : Except String JV := do
+  match j with
+  | .arr #[.str "z"] => pure O2P.Jq.Json.null
+  | .arr #[.str "b", .bool b] => pure (O2P.Jq.Json.bool b)
+  | .arr #[.str "n", .str n] => match n.toInt? with
+    | some i => pure (O2P.Jq.Json.num i)
+    | none => throw "bad number"
+  | .arr #[.str "s", .str s] => pure (O2P.Jq.Json.str s)
+  | .arr #[.str "a", .arr xs] => do pure (O2P.Jq.Json.arr (← xs.toList.mapM decode))
+  | .arr #[.str "o", .arr kvs] => do
+    let l ← kvs.toList.mapM fun kv => match kv with
+      | .arr #[.str k, v] => do pure (k, ← decode v)
+      | _ => throw "bad object entry"
+    pure (O2P.Jq.Json.obj l)
+  | _ => throw "bad tagged json"
+
+partial def encode : JV → Json
+  | .null => Json.null
+  | .bool b => Json.bool b
+  | .num n => Json.mkObj [("$int", Json.str (toString n))]
+  | .str s => Json.str s
+  | .arr l => Json.arr (l.map encode).toArray
+  | .obj kv => Json.mkObj (kv.map fun (k, v) => (k, encode v))
+
+def optStr (j : Json) (k : String) : Option String :=
+  match j.getObjVal? k with
+  | .ok (.str s) => some s
+  | _ => none
+
+def parseMapping (j : Json) : Except String (List (String × O2P.Jq.FieldSpecN)) := do
+  let fs ← getArr j "mapping"
+  fs.toList.mapM fun f => do
+    let name ← getStr f "name"
+    let isArray ← getBool f "array"
+    let parts ← (← getArr f "parts").toList.mapM fun p => match p with
+      | .arr alts => alts.toList.mapM fun a => do
+          pure ({ keyPath := ← getStr a "kp", keyValue := optStr a "kv", valuePath := optStr a "vp" } : O2P.Jq.AltSpec)
+      | _ => throw "part must be an array"
+    pure (name, ({ parts, isArray } : O2P.Jq.FieldSpecN))
+
+def eventJson (e : O2P.Jq.Event) : Json :=
+  Json.mkObj [("job_name", e.jobName), ("job_id", e.jobId), ("event_type", e.eventType), ("event_id", e.eventId),
+    ("start_timestamp", Json.str (toString e.start)), ("end_timestamp", Json.str (toString e.stop)),
+    ("application_name", e.app),
+    ("parent_event_id", match e.parent with
+      | some p => Json.str p
+      | none => Json.null),
+    ("child_event_ids", match e.children with
+      | some l => Json.arr (l.map Json.str).toArray
+      | none => Json.null)]
+
+def run (j : Json) : Except String Json := do
+  let m ← parseMapping j
+  let docs ← (← getArr j "docs").toList.mapM decode
+  let p := O2P.Jq.compile m
+  let recs := docs.map fun d => (O2P.Jq.extract p d).map fun r => Json.mkObj (r.map fun (k, v) => (k, encode v))
+  pure <| Json.mkObj [("records", Json.arr (recs.map fun rs => Json.arr rs.toArray).toArray),
+    ("events", Json.arr ((O2P.Jq.source p docs).map eventJson).toArray)]
+
+end JqOps
+
 def handle (j : Json) : Except String Json := do
   let op ← getStr j "op"
   match op with
@@ -257,6 +324,7 @@ def handle (j : Json) : Except String Json := do
   | "time.formatMicros" => TimeOps.opFormatMicros j
   | "seq.job" => SeqOps.job j
   | "store.script" => StoreOps.script j
+  | "jq.run" => JqOps.run j
   | _ => throw s!"unknown op {op}"
 
 partial def loop (h : IO.FS.Stream) (out : IO.FS.Stream) : IO Unit := do
